@@ -811,7 +811,7 @@ pub fn run(cfg: &Cfg, rep: &mut Report) {
     ctx.rep.add("random_cases", done);
     // two-level expressions over a smaller grid (and random operands)
     let ints: [i64; 14] = [0, 1, -1, 2, -2, 3, 7, 63, 64, i64::MAX, i64::MIN, i64::MAX - 1, i64::MIN + 1, 1 << 32];
-    let floats: [f64; 12] = [0.0, -0.0, 1.0, -1.0, 1.5, -2.5, 5e-324, f64::MAX, f64::INFINITY, f64::NEG_INFINITY, f64::NAN, 1e-300];
+    let floats: [f64; 18] = [0.0, -0.0, 1.0, -1.0, 1.5, -2.5, 5e-324, f64::MAX, f64::INFINITY, f64::NEG_INFINITY, f64::NAN, 1e-300, 0.1, 0.3, 1e16, -1e16, 9007199254740992.0, -1.7e308];
     let mut cell2 = 0u64;
     for x in int_compounds() {
         for a in ints {
@@ -829,6 +829,16 @@ pub fn run(cfg: &Cfg, rep: &mut Report) {
                 cell2 += 1;
                 if cfg.owns(cell2) {
                     ctx.check_float_compound(&x, a, b);
+                }
+            }
+        }
+    }
+    for (o1, o2) in [("+", "+"), ("+", "-"), ("-", "-"), ("*", "*"), ("*", "/"), ("/", "/"), ("+", "*")] {
+        for (c1, c2) in [(0.1f64, 0.2f64), (1e16, -1e16), (1.0, 1e-16), (1.7e308, 1.7e308), (3.0, 0.1), (1e308, 10.0)] {
+            for a in floats {
+                cell2 += 1;
+                if cfg.owns(cell2) {
+                    ctx.check_float_assign_chain(o1, c1, o2, c2, a);
                 }
             }
         }
@@ -985,11 +995,41 @@ fn float_compounds() -> Vec<X> {
         out.push(X::Bin(o2, a(), bin(o1, a(), b())));
         out.push(X::Bin(o2, bin(o1, a(), b()), bin(o1, b(), a())));
     }
+    // two constants next to one run-time operand: float arithmetic is not associative, so the constants must not be
+    // combined with each other first (nor moved across the operand)
+    for (o1, o2) in [("+", "+"), ("+", "-"), ("-", "+"), ("-", "-"), ("*", "*"), ("*", "/"), ("/", "*"), ("/", "/"), ("+", "*"), ("*", "+")] {
+        for (c1, c2) in [(0.1f64, 0.2f64), (0.2, 0.3), (1e16, -1e16), (1.0, 1e-16), (1.7e308, 1.7e308), (1.7e308, -1.7e308), (3.0, 0.1), (1e-320, 1e10), (0.7, 0.1), (1e308, 10.0)] {
+            out.push(X::Bin(o2, bin(o1, a(), k(c1)), k(c2)));
+            out.push(X::Bin(o2, k(c1), bin(o1, k(c2), a())));
+            out.push(X::Bin(o2, bin(o1, k(c1), a()), k(c2)));
+            out.push(X::Bin(o2, k(c1), bin(o1, a(), k(c2))));
+        }
+    }
     out.push(X::Un("-", Box::new(X::Un("-", a()))));
     out
 }
 
 impl Ctx<'_> {
+    /// `c := mut a; c o1= k1; c o2= k2`: two compound assignments in a row are two operations, in that order
+    fn check_float_assign_chain(&mut self, o1: &str, k1: f64, o2: &str, k2: f64, a: f64) {
+        let (Some(l1), Some(l2)) = (float_lit(k1), float_lit(k2)) else { return };
+        let step = |op: &str, x: f64, y: f64| match float_oracle(op, x, y) {
+            Exp::Float(v) => v,
+            _ => f64::NAN,
+        };
+        let exp = Exp::Float(step(o2, step(o1, a, k1), k2));
+        let text = format!("(a: float) -> float {{ c := mut a; c {o1}= {l1}; c {o2}= {l2}; return *c }}");
+        self.rep.distinct_case(&("floatchain", &text, a.to_bits()));
+        if let Some(f) = self.funcs.get(&format!("floatchain {text}"), || text.clone()) {
+            let out = call(&f, vec![Variable::Float(a)]);
+            self.rep.evaluations += 1;
+            self.rep.count("form_assign_chain");
+            if let Err(why) = judge(&exp, &out) {
+                self.fail("assign-chain", "float", &format!("{o1}= {o2}="), &format!("{a:?}"), &format!("{k1:?},{k2:?}"), &format!("{why} [{text}]"));
+            }
+        }
+    }
+
     fn check_int_compound(&mut self, x: &X, a: i64, b: i64) {
         let text = x.text();
         let exp = x.int(a, b);
